@@ -255,7 +255,13 @@ fn do_icao(out: &mut Out, frame: &[u8]) {
             }
         }
         Some(None) => out.fail("ap-address-missing", &op, &format!("DF{df}: no icao24 in the message, transmitted {want}")),
-        None => out.stat(&format!("icao:df{df}:{}", ans)),
+        // the six address/parity formats have no payload the decoder refuses (every enum has a catch-all,
+        // Comm-B hypotheses swallow their errors): a right-length frame that is not decoded reports no
+        // address at all, which the property excludes ("for every address and every payload")
+        None => {
+            out.stat(&format!("icao:df{df}:{}", ans));
+            out.fail("ap-frame-not-decoded", &op, &format!("DF{df}: {ans}; transmitted address {want} is not reported"));
+        }
     }
     // the typed field must say the same
     if let Some(Ok(m)) = &r {
